@@ -108,6 +108,11 @@ Record sscript := mkS {
   s_post : pmode; s_post_rc : rcode
 }.
 
+(* The Integrity string of the scripted server's response ad.  harness/peer's scripted server
+   always writes Integrity="NO" (as cedar's own createServerSecurityAd does), which is none of
+   the four level names. *)
+Definition s_integ (s : sscript) : lvl := Ot.
+
 Inductive lstep :=
 | LDone (m : meth) (ran : list (meth * bool))      (* authenticated with m *)
 | LErr (ran : list (meth * bool)).
@@ -161,8 +166,9 @@ Definition client_hs (c : cfg) (s : sscript) : outcome :=
   else
     let sm := prefer_list (s_list s) (s_single s) in
     let sc := prefer_list (s_clist s) (s_csingle s) in
-    let n := negotiate (to_lvl (s_auth s)) (c_auth c) (to_lvl (s_enc s)) (c_enc c) sm (c_meths c) sc (c_ciphs c) in
-    match n_err n with
+    let n := negotiate_i (to_lvl (s_auth s)) (c_auth c) (to_lvl (s_enc s)) (c_enc c) (s_integ s) (c_integ c)
+                         sm (c_meths c) sc (c_ciphs c) in
+    match ni_err n with
     | Some _ => Err []
     | None =>
         if is_yes (s_auth s) then
@@ -173,13 +179,13 @@ Definition client_hs (c : cfg) (s : sscript) : outcome :=
               match cms with
               | [] => Err []
               | _ => match client_loop cms (s_replies s) (mask cms) [] with
-                     | LDone m ran => client_finish c s (n_ciph n) true m ran
+                     | LDone m ran => client_finish c s (ni_ciph n) true m ran
                      | LErr ran => Err ran
                      end
               end
           end
         else if is_rq (c_auth c) then Err []
-        else client_finish c s (n_ciph n) false (n_meth n) []
+        else client_finish c s (ni_ciph n) false (ni_meth n) []
     end.
 
 (* ---- server against a scripted client ----------------------------------------- *)
@@ -222,20 +228,24 @@ Definition server_finish (c : cfg) (s : cscript) (k : option ciph)
   if negb enc && needs_protection c then Err ran
   else Ok (mkR auth enc m ran enc (if enc then Some (KDerived (q_key s)) else None)).
 
+(* The Integrity level in the scripted client's ad: harness/peer's client scripts all carry
+   Integrity="OPTIONAL" (it is not a script dimension). *)
+Definition q_integ (s : cscript) : lvl := Op.
+
 Definition server_hs (c : cfg) (s : cscript) : outcome :=
   if negb (q_cmd_ok s) then Err []
   else
-    let n := negotiate (c_auth c) (to_lvl (q_auth s)) (c_enc c) (to_lvl (q_enc s))
-                       (c_meths c) (q_meths s) (c_ciphs c) (q_ciphs s) in
-    match n_err n with
+    let n := negotiate_i (c_auth c) (to_lvl (q_auth s)) (c_enc c) (to_lvl (q_enc s)) (c_integ c) (q_integ s)
+                         (c_meths c) (q_meths s) (c_ciphs c) (q_ciphs s) in
+    match ni_err n with
     | Some _ => Err []                                  (* DENIED response sent *)
     | None =>
-        if n_auth n then
+        if ni_auth n then
           match server_loop (c_meths c) (q_masks s) [] with
-          | LDone m ran => server_finish c s (n_ciph n) true m ran
+          | LDone m ran => server_finish c s (ni_ciph n) true m ran
           | LErr ran => Err ran
           end
-        else server_finish c s (n_ciph n) false (n_meth n) []
+        else server_finish c s (ni_ciph n) false (ni_meth n) []
     end.
 
 (* ---- resumed handshakes ------------------------------------------------------------ *)
